@@ -103,7 +103,7 @@ impl Default for SimConfig {
             step_cost_ns: 200,
             rates: [0; Fk::Count as usize],
             hosts: vec![],
-            watchdog_real_ms: 120_000,
+            watchdog_real_ms: 400_000,
             exec_cost_mean_gap: 64,
             max_delay_ns: 2_000_000_000,
             max_exec_cost_ns: 20_000_000,
